@@ -408,7 +408,7 @@ func (a *adapter) realAll(l []*atx) types.Transactions {
 func (a *adapter) buildOn(n *node.Node, parent *types.Block, txs types.Transactions, abs []*atx, extra string) *types.Block {
 	b, invalid, err := n.Build(parent, int(parent.Height())%2, 0, txs, extra)
 	if err != nil || len(invalid) != 0 || len(b.Txs) != len(txs) {
-		engine.Failf("setup block %s: err=%v discarded=%d packaged=%d of %d", extra, err, len(invalid), len(b.Txs), len(txs))
+		engine.Realf("setup block %s: err=%v discarded=%d packaged=%d of %d", extra, err, len(invalid), len(b.Txs), len(txs))
 	}
 	return b
 }
@@ -419,15 +419,15 @@ func (a *adapter) fresh(tag string, wd *world) *node.Node {
 	n := a.w.NewNode(filepath.Join(a.dir, fmt.Sprintf("%s%d", tag, a.seq)))
 	for _, s := range wd.setup {
 		if _, err := n.DP.InsertBlock(node.Copy(s, nil)); err != nil {
-			engine.Failf("feeding setup block to %s: %v", tag, err)
+			engine.Realf("feeding setup block to %s: %v", tag, err)
 		}
 		sigs := []types.SignData{node.Sign(s.Hash(), a.w.Keys[0], 0), node.Sign(s.Hash(), a.w.Keys[1], 0)}
 		if err := n.DP.InsertConfirms(s.Height(), s.Hash(), sigs); err != nil {
-			engine.Failf("confirming setup block on %s: %v", tag, err)
+			engine.Realf("confirming setup block on %s: %v", tag, err)
 		}
 	}
 	if n.DP.StableBlock().Hash() != wd.setup[len(wd.setup)-1].Hash() {
-		engine.Failf("setup blocks did not become stable on %s", tag)
+		engine.Realf("setup blocks did not become stable on %s", tag)
 	}
 	// The store writes the asset-code -> issuer index of a stable block from a background goroutine; until then the
 	// processor of this node discards / rejects every transaction on the asset ("asset dose not exist").  Wait for it
@@ -751,14 +751,14 @@ func (a *adapter) mine() (*types.Block, []*atx) {
 	blk, invalid, err := a.B.Build(a.parent, a.minerFor(a.parent), 0, txs, fmt.Sprintf("h%d.%d", a.parent.Height()+1, a.nbuild))
 	a.nbuild++
 	if err != nil {
-		engine.Failf("Build: %v", err)
+		engine.Realf("Build: %v", err)
 	}
 	inc := map[common.Hash]*types.Transaction{}
 	for _, tx := range blk.Txs {
 		inc[tx.Hash()] = tx
 	}
 	if len(invalid)+len(blk.Txs) != len(txs) {
-		engine.Failf("miner neither packaged nor discarded a transaction: %d + %d != %d", len(blk.Txs), len(invalid), len(txs))
+		engine.Realf("miner neither packaged nor discarded a transaction: %d + %d != %d", len(blk.Txs), len(invalid), len(txs))
 	}
 	for i, t := range abs {
 		// the hash of a box changes when the processor rewrites its data: match by position among packaged ones
@@ -973,6 +973,9 @@ func (a *adapter) retire(ns ...*node.Node) {
 }
 
 func drained(n *node.Node) bool {
+	if n.DB == nil || n.DB.Beansdb == nil || n.DB.Beansdb.Queue == nil { // a node whose set-up failed half way
+		return true
+	}
 	q := n.DB.Beansdb.Queue
 	q.IndexRW.RLock()
 	k := len(q.Index)
